@@ -213,7 +213,7 @@ Record Opts := mkOpts {
   o_setup : option string;     (* -s file: Some (dirname file) *)
   o_setup_uses : list uop;     (* what the setup file does with line_profiler.profile (it runs
                                   "outside of the profiler": before kernprof takes the decorator over) *)
-  o_interval : Z;              (* -i N (0 = not given / 0) *)
+  o_interval : Z;              (* -i N (0 = not given / 0; may be negative) *)
   o_dump_fails : bool;         (* -o names a file that cannot be opened: prof.dump_stats() raises in main's finally *)
   o_print_fails : bool;        (* sys.stdout is closed: the first print() after the dump raises in main's finally *)
   o_script_missing : bool;     (* the script / module does not exist: find_script() raises SystemExit(1) - after
@@ -265,7 +265,9 @@ Definition leaks (cfg : Fixes) (o : Opts) (p : Prog) : bool :=
 
 (* does main get as far as the profiled program? *)
 Definition ran (o : Opts) : bool := negb (o_script_missing o).
-Definition timed (o : Opts) : bool := (0 <? o_interval o) && ran o.
+(* `if options.output_interval:` - ANY non-zero value, also a negative one (argparse takes `-i -2`): the timer is
+   created with max(interval, 1) seconds, and the same truth test guards rt.stop() *)
+Definition timed (o : Opts) : bool := negb (o_interval o =? 0) && ran o.
 (* writing / announcing / showing the results fails: an exception leaves main's finally *)
 Definition results_fail (o : Opts) : bool := ran o && (o_dump_fails o || o_print_fails o).
 
